@@ -16,6 +16,7 @@ import TsRsVerif.Model.Validity
 import TsRsVerif.Model.Comment
 import TsRsVerif.Model.TreeDerive
 import TsRsVerif.Lemmas.History
+import TsRsVerif.Lemmas.UnfoldCheck
 open Lean TsRs
 
 def gs (j : Json) (k : String) : Str :=
@@ -425,6 +426,41 @@ partial def loop (h : IO.FS.Stream) (out : IO.FS.Stream) (st : DState) : IO Unit
                 && Ts.beq (Ts.norm [] [] 60 b) (Ts.norm [] [] 60 (TsParse.bindParams ps pb))))]
           | _, _ => Json.mkObj [("in", Json.bool true), ("eq", Json.bool false), ("unparsed", Json.bool true)]
       out.putStrLn (Json.mkObj [("frag", Json.bool frag), ("sub", Json.num sub.length), ("rows", Json.arr rows.toArray)]).compress
+      loop h out st
+    else if op = "inline_check" then
+      -- C01_inline_sound / C14_checked_unfolding: the tree-level declarations of the program WITHOUT its `inline` marks against the
+      -- parsed REAL declarations of the program WITH them, through the executable unfolding test (`declsUnfB`, proven sound)
+      let env : Env := (ProgIO.arr j "items").map ProgIO.item
+      let cfg : Cfg := { ops := opsOf st.chars }
+      let decls := gsl j "decls"
+      let eraseF (f : Field) : Field := { f with attr := { f.attr with inline := false } }
+      let erase (it : Item) : Item :=
+        { it with fields := it.fields.map eraseF,
+                  variants := it.variants.map fun v => { v with fields := v.fields.map eraseF, attr := { v.attr with inline := false } } }
+      let marked (it : Item) : Bool :=
+        it.fields.any (·.attr.inline) || it.variants.any fun v => v.attr.inline || v.fields.any (·.attr.inline)
+      let env1 := env.map erase
+      let env0 := env1.filter (Tree.itemOk cfg)
+      let rec shrinkI : Nat → Env → Env
+        | 0, e => e
+        | n + 1, e =>
+          let e' := e.filter fun it => (Tree.itemBody cfg e it).isSome
+          if e'.length = e.length then e else shrinkI n e'
+      let sub := shrinkI env.length env0
+      let frag := Tree.fragB cfg sub
+      let D := Tree.declsOf cfg sub
+      let real : List (Option (Str × List Str × Ts)) := sub.map fun it =>
+        match (env.zip decls).find? (fun p => p.1.name = it.name) with
+        | some (_, d) => (TsParse.parseDecl d).map fun (n, ps, pb) => (n, ps, TsParse.bindParams ps pb)
+        | none => none
+      let D' : Decls := real.filterMap id
+      let parsedAll := real.all (·.isSome)
+      let nMarked := (env.filter fun it => marked it && (sub.find? (·.name = it.name)).isSome).length
+      let wsd := wsdB D
+      let unf := parsedAll && declsUnfB D 40 D D'
+      let bad := ((D.zip D').filter fun (a, b) => !(a.1 == b.1 && a.2.1 == b.2.1 && unfB D 40 a.2.2 b.2.2)).map fun (a, _) => S a.1
+      out.putStrLn (Json.mkObj [("frag", Json.bool frag), ("sub", Json.num sub.length), ("marked", Json.num nMarked), ("wsd", Json.bool wsd),
+        ("parsed", Json.bool parsedAll), ("unf", Json.bool unf), ("bad", Json.arr bad.toArray)]).compress
       loop h out st
     else if op = "uhist" then
       out.putStrLn (runUHist st.uni j).compress
